@@ -10,8 +10,8 @@ and `Date::Date(const String&, const String&)` and are tied to the code by the c
 
 Floating-point steps that are abstracted (exercised exhaustively by the harness):
 * `floor(t * (1 / 86400.0))`, `floor(t / 86400.0)` are the integer day of `t`;
-* the h/m/s extraction from the fractional day of `t + 0.0005` yields the exact second of the day;
-* `int(1000 * fract(t) + 0.5) % 1000` is the millisecond part;
+* `floor(floor(t * 1000 + 0.5) / 1000)` is the second and `floor(t * 1000 + 0.5) mod 1000` the millisecond of the instant
+  rounded to the nearest millisecond; `t - floor(t / 86400.0) * 86400.0` is the exact second of the day of a whole second `t`;
 * the fraction `parseInt(digits) * pow(10.0, 1 - i)` is rounded to the nearest millisecond.
 Strings are `List UInt8` without NUL; index `length` is the terminator, any larger index is an
 out-of-bounds read and makes the parser return `none` (the outer `Option`).
@@ -117,12 +117,14 @@ def toUTCString (k : Fmt) (t : Int) : Bytes := fmtFields k (calcF t) (t % 1000).
 /-! ## instants with a fraction of a millisecond
 
 `Date` stores a `double`; an instant given in **microseconds** `u` stands for the double `u / 10^6`.
-`Date::calc` starts with `t += 0.0005` and takes *every* field from the floor of that sum, and
-`toString(FULL)` prints `int(1000 * fract(t) + 0.5) % 1000`: both are the instant rounded to the nearest
-millisecond (ties up), which is `roundMs`.  (Before repo commit 4c81461 the date part was taken from the
-unrounded instant: within 0.5 ms before midnight the date was a day behind the time of day.) -/
+`Date::calc` starts with `t = floor(floor(t * 1000 + 0.5) / 1000)` and takes *every* field from that whole second by
+integer arithmetic, and `toString(FULL)` prints `floor(t * 1000 + 0.5) mod 1000`: one rounding of the instant to the
+nearest millisecond (ties up), which is `roundMs`.  (Before repo commit 4c81461 the date part was taken from the unrounded
+instant; before f44eb78 the second came from a fractional-day chain and the millisecond from `fract(t)`, which disagreed by
+a whole second for about half of the instants at .9995 s.)  At an exact tie the double product `t * 1000 + 0.5` may fall on
+either side; the correspondence check accepts either neighbour there (`tieu`) but demands one consistent choice. -/
 
-/-- nearest millisecond, ties up: `floor((t + 0.0005) * 1000)` for `t = u / 10^6` -/
+/-- nearest millisecond, ties up: `floor(t * 1000 + 0.5)` for `t = u / 10^6` -/
 def roundMs (u : Int) : Int := (u + 500) / 1000
 
 /-- `Date(u / 1e6).splitUTC()` -/
